@@ -12,7 +12,7 @@ def rule_trailer_comment(check):
     prog = check.prog
     pj = prog.fn("rewriter::print_js")
     n = 0
-    for node, pieces in fmtargs.formats_in(pj):
+    for node, pieces in fmtargs.text_assemblies(prog, pj):
         if any(k == "lit" and "base64" in v for k, v in pieces):
             n += 1
             ok = len(pieces) >= 2 and pieces[1][0] == "lit" and pieces[1][1].startswith("\n//")
@@ -59,6 +59,9 @@ def run(check):
     check.guarded("RAW-TEXT", rule_raw_text)
     check.guarded("PAREN-WRAP", X.rule_paren_wrap)
     check.guarded("GROUP", X.rule_hoist_paren)
+    from ..engine import Only as _Only
+    check.rule("OPERAND-GRAMMAR", "operands the operand handler leaves in place (and copies) are of kinds that can stand as an operand of the rebuilt binary `+` without parentheses: an arrow function, a yield, an assignment, a conditional or a sequence left in place is printed unparenthesised inside `left + right` and the output does not parse")
+    check.guarded("OPERAND-GRAMMAR", lambda c: X.rule_kept_in_place(_Only(c, "KEPT-IN-PLACE", "OPERAND-GRAMMAR", ("/grammar/",))))
     check.guarded("PROGRAM-KIND", X.rule_program_kind)
     check.guarded("TRAILER-COMMENT", rule_trailer_comment)
     check.guarded("TS-FLAGS", X.rule_ts_flags)
